@@ -92,13 +92,17 @@ package simplify
 //@   ensures len(ls) > 2 ==> result.ref == ls.ref && result.off == ls.off && 1 <= len(result) && len(result) <= len(ls) && same(result[0], old(ls[0])) && same(result[len(result)-1], old(ls[len(ls)-1]))
 
 //@ func lineString(s, ls)
+//@   callpre runSimplify: arg2 == false
 //@   requires s != nil
 //@ func ring(s, r)
+//@   callpre runSimplify: arg2 == true
 //@   requires s != nil
 //@ func multiLineString(s, mls)
+//@   callpre runSimplify: arg2 == false
 //@   requires s != nil
 //@   ensures same(result, mls)
 //@ func polygon(s, p)
+//@   callpre runSimplify: arg2 == true
 //@   requires s != nil
 //@   ensures result.ref == p.ref && result.off == p.off && len(result) <= len(p) && (len(p) >= 1 ==> len(result) >= 1)
 //@   loop 1: invariant -1 <= rangeindex && rangeindex < len(p) && 0 <= count && count <= rangeindex + 1 && (rangeindex >= 0 ==> count >= 1)
@@ -109,5 +113,13 @@ package simplify
 //@ func collection(s, c)
 //@   requires s != nil
 //@   ensures same(result, c)
+// the generic dispatcher hands each kind to the helper of its own kind (and only to it): lines are
+// simplified as lines (area == false), rings as rings (area == true)
 //@ func simplify(s, geom)
 //@   requires s != nil
+//@   callpre lineString: istype(geom, orb.LineString) && same(arg1, as(geom, orb.LineString))
+//@   callpre multiLineString: istype(geom, orb.MultiLineString) && same(arg1, as(geom, orb.MultiLineString))
+//@   callpre ring: istype(geom, orb.Ring) && same(arg1, as(geom, orb.Ring))
+//@   callpre polygon: istype(geom, orb.Polygon) && same(arg1, as(geom, orb.Polygon))
+//@   callpre multiPolygon: istype(geom, orb.MultiPolygon) && same(arg1, as(geom, orb.MultiPolygon))
+//@   callpre collection: istype(geom, orb.Collection) && same(arg1, as(geom, orb.Collection))
